@@ -4,19 +4,9 @@ counter-clockwise, non-degenerate triangle (C02 "every inner face is a counter-c
 non-degenerate triangle", for all executions of the legalisation loop on the model).
 -/
 import Spade.Proofs.LinkInv
-import Spade.Proofs.FlipGeom
+import Spade.Proofs.CcwBase
 namespace Spade
 namespace St
-
-/-- the inner face left of half-edge `e` is a counter-clockwise triangle -/
-def CcwE (s : St) (e : Nat) : Prop := s.fc e ≠ 0 → 0 < orient (s.A e) (s.B e) (s.C e)
-
-/-- link invariant + every inner half-edge spans a counter-clockwise triangle -/
-structure CInv (s : St) : Prop where
-  links : LInv s
-  ccw : ∀ e, e < s.nE → CcwE s e
-
-theorem orient_rot (a b c : Pt) : orient b c a = orient a b c := by unfold orient; ring
 
 theorem pos_apply (s : St) (i : Instr) (h : i.dV = 0) : (i.apply s).pos = s.pos := by
   cases i <;> first | rfl | (simp [Instr.dV] at h)
@@ -188,6 +178,250 @@ theorem CInv.legalizeVertex {s : St} (hc : CInv s) (v : Nat) : CInv (s.legalizeV
   induction l generalizing s with
   | nil => exact hc
   | cons e es ih => exact ih (hc.legalizeEdge e false)
+
+/-! ### whole insertions -/
+
+theorem CInv.setData {s : St} (hc : CInv s) (v d : Nat) :
+    CInv ({ s with data := s.data.setIfInBounds v d } : St) :=
+  ⟨hc.links.setData v d, hc.ccw⟩
+
+theorem CInv.markFlag {s : St} (hc : CInv s) (e : Nat) : CInv (s.markFlag e) :=
+  ⟨hc.links.markFlag e, hc.ccw⟩
+
+theorem CInv.splitFlags {s : St} (hc : CInv s) (b : Bool) (e0 e1 : Nat) : CInv (s.splitFlags b e0 e1) := by
+  unfold St.splitFlags
+  split
+  · exact (hc.markFlag e0).markFlag e1
+  · exact hc
+
+/-- without inner faces there is nothing to orient -/
+theorem CInv.of_degenerate {s : St} (hs : LInv s) (hF : s.nF = 1) : CInv s := by
+  refine ⟨hs, fun e he hfe => ?_⟩
+  have := (hs.edge e he).2.2.2.1
+  omega
+
+theorem CInv.insertIntoFace {s : St} (hc : CInv s) (f : Nat) (p : Pt) (d : Nat) (h0 : 0 < f) (hf : f < s.nF)
+    (hgeo : StrictlyInsideTri (s.A (s.fe f)) (s.B (s.fe f)) (s.C (s.fe f)) p) :
+    CInv (s.insertIntoFace f p d).1 := by
+  unfold St.insertIntoFace
+  have h1 : CInv (s.insertIntoTriangle f p d).1 := by
+    rw [insertIntoTriangle_eq]
+    exact ⟨hc.links.itCore f p d h0 hf, hc.itCore_ccw f p d h0 hf hgeo⟩
+  exact h1.legalizeVertex _
+
+theorem CInv.insertOnEdge {s : St} (hc : CInv s) (e : Nat) (p : Pt) (d : Nat) (he : e < s.nE)
+    (hin : s.fc e ≠ 0 ∨ s.fc (s.rv e) ≠ 0) (hgeo : OnOpenSeg (s.A e) (s.B e) p) :
+    CInv (s.insertOnEdge e p d).1 := by
+  have hs := hc.links
+  unfold St.insertOnEdge
+  split
+  · rename_i h
+    have h2 : s.fc (s.rv e) ≠ 0 := by rcases hin with h' | h' <;> [exact absurd h h'; exact h']
+    have hg' : OnOpenSeg (s.A (s.rv e)) (s.B (s.rv e)) p := by
+      have hB : s.B (s.rv e) = s.A e := by unfold A B dst; rw [hs.rv_rv he]
+      have hA : s.A (s.rv e) = s.B e := by unfold A B dst; rfl
+      rw [hA, hB]; exact onOpenSeg_symm _ _ _ hgeo
+    rw [splitHalfEdge_eq]
+    exact ⟨hs.shCore (s.rv e) p d (hs.rv_lt he) h2 (by rw [hs.rv_rv he]; exact h),
+      hc.shCore_ccw (s.rv e) p d (hs.rv_lt he) h2 (by rw [hs.rv_rv he]; exact h) hg'⟩
+  · rename_i h
+    split
+    · rename_i h2
+      rw [splitHalfEdge_eq]
+      exact ⟨hs.shCore e p d he h h2, hc.shCore_ccw e p d he h h2 hgeo⟩
+    · rename_i h2
+      rw [splitEdge_eq]
+      exact ⟨hs.seCore e p d he h h2, hc.seCore_ccw e p d he h h2 hgeo⟩
+
+theorem CInv.createSingleFace {s : St} (hc : CInv s) (e : Nat) (h : s.singleFaceOK e = true) :
+    CInv (s.createSingleFaceBetweenEdgeAndNext e).1 := by
+  have hl := hc.links.createSingleFace e h
+  unfold St.singleFaceOK at h
+  simp only [Bool.and_eq_true, decide_eq_true_eq] at h
+  obtain ⟨⟨⟨⟨h1, h2⟩, h3⟩, h4⟩, h5⟩ := h
+  refine ⟨hl, ?_⟩
+  rw [createSingleFace_eq]
+  exact hc.csCore_ccw e () h1 h2 h3 h4 h5
+
+theorem CInv.ccwWalk {s : St} (hc : CInv s) (p : Pt) (fuel cur : Nat)
+    (h : St.ccwWalkOK p fuel s cur = true) : CInv (St.ccwWalk p fuel s cur) := by
+  induction fuel generalizing s cur with
+  | zero => simpa [St.ccwWalk] using hc
+  | succ n ih =>
+    simp only [St.ccwWalk, St.ccwWalkOK] at h ⊢
+    split
+    · rename_i hg
+      rw [if_pos hg] at h
+      simp only [Bool.and_eq_true] at h
+      exact ih ((hc.createSingleFace _ h.1).legalizeEdge _ _) _ h.2
+    · exact hc
+
+theorem CInv.cwWalk {s : St} (hc : CInv s) (p : Pt) (fuel cur : Nat)
+    (h : St.cwWalkOK p fuel s cur = true) : CInv (St.cwWalk p fuel s cur) := by
+  induction fuel generalizing s cur with
+  | zero => simpa [St.cwWalk] using hc
+  | succ n ih =>
+    simp only [St.cwWalk, St.cwWalkOK] at h ⊢
+    split
+    · rename_i hg
+      rw [if_pos hg] at h
+      simp only [Bool.and_eq_true] at h
+      exact ih ((hc.createSingleFace _ h.1).legalizeEdge _ _) _ h.2
+    · exact hc
+
+theorem CInv.insertOutside {s : St} (hc : CInv s) (e : Nat) (p : Pt) (d : Nat)
+    (h : s.outsideOK e p d = true) : CInv (s.insertOutsideOfConvexHull e p d).1 := by
+  unfold St.outsideOK at h
+  unfold St.insertOutsideOfConvexHull
+  have c0 : decide (e < s.nE) = true ∧ decide (s.fc e = 0) = true ∧
+      decide (0 < orient (s.A e) (s.B e) p) = true := by
+    simp only [Bool.and_eq_true] at h; exact ⟨h.1.1.1, h.1.1.2, h.1.2⟩
+  have c : CInv (s.createNewFaceAdjacentToEdge e p d).1 := by
+    rw [createNewFace_eq]
+    exact ⟨hc.links.cnCore e p d (of_decide_eq_true c0.1) (of_decide_eq_true c0.2.1),
+      hc.cnCore_ccw e p d (of_decide_eq_true c0.1) (of_decide_eq_true c0.2.1) (of_decide_eq_true c0.2.2)⟩
+  generalize hcn : s.createNewFaceAdjacentToEdge e p d = r at *
+  obtain ⟨s1, v1⟩ := r
+  simp only [Bool.and_eq_true] at h
+  obtain ⟨_, h3, h4⟩ := h
+  exact ((c.legalizeEdge e false).ccwWalk p _ _ h3).cwWalk p _ _ h4
+
+theorem nF_of_grows {s t : St} {k e : Nat} (g : Grows s t k e 0) (hF : s.nF = 1) : t.nF = 1 := by
+  unfold nF at *; rw [g.fadj]; omega
+
+/-- **Counter-clockwise faces over an insertion of the model.**  From a state with the link
+invariant in which every inner face is a counter-clockwise triangle, `insert_with_hint` (model
+`insertM`) leads to such a state again, given the evaluated side conditions `insertSideOK` (which
+now include that the answer of the locate walk is geometrically true and that hull-closing steps
+turn left). -/
+theorem CInv.insertM {s t : St} (hc : CInv s) (p : Pt) (d hint v : Nat)
+    (side : s.insertSideOK p d hint = true)
+    (h : s.insertM p d hint = some (t, v)) : CInv t := by
+  have hs := hc.links
+  have hl : LInv t := hs.insertM p d hint v side h
+  unfold St.insertM at h
+  unfold St.insertSideOK at side
+  split at h
+  · -- first vertex: no faces
+    have ht := congrArg Prod.fst (Option.some.inj h)
+    change _ = t at ht
+    have hn : t.nF = 1 := by
+      rename_i hV0
+      have hF := (LInv.of_no_edges s (by
+        by_contra hne
+        have h0 : 0 < s.nE := Nat.pos_of_ne_zero hne
+        have := (hs.edge 0 h0).1
+        omega) (by
+        by_contra hF
+        have hF1 := hs.faces
+        have := hs.anchor 1 (by omega) (by omega)
+        have h0 : s.nE = 0 := by
+          by_contra hne
+          have h0 : 0 < s.nE := Nat.pos_of_ne_zero hne
+          have := (hs.edge 0 h0).1
+          omega
+        omega) hs.dsz hs.vsz).faces
+      rw [← ht]
+      have hF1 : s.nF = 1 := by
+        by_contra hF
+        have hF1 := hs.faces
+        have := hs.anchor 1 (by omega) (by omega)
+        have h0 : s.nE = 0 := by
+          by_contra hne
+          have h0 : 0 < s.nE := Nat.pos_of_ne_zero hne
+          have := (hs.edge 0 h0).1
+          omega
+        omega
+      exact nF_of_grows (grows_insertFirstVertex s p d) hF1
+    exact CInv.of_degenerate hl hn
+  · rename_i hV0
+    split at h
+    · rename_i hV1
+      obtain ⟨hE, hF⟩ := hs.one_vertex hV1
+      split at h
+      · have ht := congrArg Prod.fst (Option.some.inj h)
+        change _ = t at ht
+        rw [← ht]; exact hc.setData _ _
+      · have ht := congrArg Prod.fst (Option.some.inj h)
+        change _ = t at ht
+        exact CInv.of_degenerate hl (by rw [← ht]; exact nF_of_grows (grows_insertSecondVertex s p d) hF)
+    · rename_i hV1
+      have hV2 : ¬ s.nV < 2 := by omega
+      rw [if_neg hV2] at side
+      split at h
+      · rename_i hF
+        rw [if_pos hF] at side
+        split at h
+        · rename_i e hle
+          have ht := congrArg Prod.fst (Option.some.inj h)
+          change _ = t at ht
+          refine CInv.of_degenerate hl ?_
+          rw [← ht]
+          have g := Grows.trans (grows_splitEdgeOnLine s e p d) (grows_splitFlags _ (s.isFlag e) e s.nE)
+          exact nF_of_grows g hF
+        · have ht := congrArg Prod.fst (Option.some.inj h)
+          change _ = t at ht
+          rw [← ht]; exact hc.setData _ _
+        · rename_i e hle
+          rw [hle] at side
+          have ht := congrArg Prod.fst (Option.some.inj h)
+          change _ = t at ht
+          rw [← ht]; exact hc.insertOutside e p d side
+        · rename_i v' hle
+          have ht := congrArg Prod.fst (Option.some.inj h)
+          change _ = t at ht
+          exact CInv.of_degenerate hl (by rw [← ht]; exact nF_of_grows (grows_extendLine s v' p d) hF)
+      · rename_i hF
+        rw [if_neg hF] at side
+        split at h
+        · simp at h
+        · rename_i e hle
+          rw [hle] at side
+          simp only [Bool.and_eq_true] at side
+          have ht : (s.insertOutsideOfConvexHull e p d).1 = t := congrArg Prod.fst (Option.some.inj h)
+          rw [← ht]
+          exact hc.insertOutside e p d side.2
+        · rename_i f hle
+          rw [hle] at side
+          simp only [Bool.and_eq_true, decide_eq_true_eq] at side
+          have hans : s.LocateAnswerOK p (.onFace f) := side.1
+          unfold St.LocateAnswerOK at hans
+          have ht : (s.insertIntoFace f p d).1 = t := congrArg Prod.fst (Option.some.inj h)
+          rw [← ht]
+          exact hc.insertIntoFace f p d hans.1 hans.2.1 hans.2.2
+        · rename_i e hle
+          rw [hle] at side
+          simp only [Bool.and_eq_true, decide_eq_true_eq] at side
+          have hans : s.LocateAnswerOK p (.onEdge e) := side.1
+          unfold St.LocateAnswerOK at hans
+          have hfc := hs.locateM_ans p hint _ hle
+          have ht := congrArg Prod.fst (Option.some.inj h)
+          change _ = t at ht
+          rw [← ht]
+          exact ((hc.insertOnEdge e p d hans.1 (Or.inl hfc.2) hans.2).splitFlags _ _ _).legalizeVertex _
+        · have ht := congrArg Prod.fst (Option.some.inj h)
+          change _ = t at ht
+          rw [← ht]
+          exact hc.setData _ _
+        · simp at h
+
+/-- **Every inner face is a counter-clockwise triangle after every insertion history of the
+model** that starts in such a state (in particular the empty triangulation) and meets its side
+conditions. -/
+theorem CInv.insertAllM (ops : List (Pt × Nat × Nat)) {s t : St} (hc : CInv s)
+    (side : s.insertAllSideOK ops = true) (h : s.insertAllM ops = some t) : CInv t := by
+  induction ops generalizing s with
+  | nil => simp only [St.insertAllM, Option.some.injEq] at h; subst h; exact hc
+  | cons op rest ih =>
+    obtain ⟨p, d, hint⟩ := op
+    simp only [St.insertAllM] at h
+    simp only [St.insertAllSideOK, Bool.and_eq_true] at side
+    cases hstep : s.insertM p d hint with
+    | none => simp [hstep] at h
+    | some r =>
+      obtain ⟨u, v⟩ := r
+      simp only [hstep] at h side
+      exact ih (hc.insertM p d hint v side.1 hstep) side.2 h
 
 end St
 end Spade
